@@ -20,8 +20,18 @@ import (
 	"github.com/modelcontextprotocol/go-sdk/internal/verifx"
 )
 
+// idSpelling: how the peer writes the id of its response to the call made from inside the handler: "" as it
+// received it, or as the same JSON number in another spelling (a peer whose JSON library keeps numbers as
+// doubles prints 7 as 7.0 or 7e0): the same number names the same request.
 func c01BacklogCase(side string, n int, filler string) (obs, sig, msg string) {
+	return c01BacklogCaseX(side, n, filler, "")
+}
+
+func c01BacklogCaseX(side string, n int, filler, idSpelling string) (obs, sig, msg string) {
 	desc := fmt.Sprintf("real %s session, backlog of %d x %s ahead of the response", side, n, filler)
+	if idSpelling != "" {
+		desc += ", response id spelled " + idSpelling
+	}
 	fail := func(s, format string, a ...any) (string, string, string) {
 		return "", "c01 backlog " + s, fmt.Sprintf(format, a...) + " [" + desc + "]"
 	}
@@ -65,6 +75,16 @@ func c01BacklogCase(side string, n int, filler string) (obs, sig, msg string) {
 				// the call from inside the handler: the backlog first, then its response.  The writer is a
 				// goroutine of its own: this loop keeps draining what the session writes.
 				id := string(m.ID)
+				switch idSpelling {
+				case "N.0":
+					id += ".0"
+				case "Ne0":
+					id += "e0"
+				case "N0E-1":
+					id += "0E-1"
+				case "N.000":
+					id += ".000"
+				}
 				go func() {
 					for i := 0; i < n; i++ {
 						switch filler {
@@ -175,6 +195,32 @@ func TestVerifC01Backlog(t *testing.T) {
 					continue
 				}
 				cases.Record(idx, obs, n+3, func() string { return fmt.Sprintf("%s %s n=%d", side, filler, n) })
+			}
+		}
+	}
+	// the response's id in other spellings of the same number
+	sp := env.NewCases(res, "backlog/response-id-spellings")
+	for _, side := range []string{"client", "server"} {
+		for _, spelling := range []string{"N.0", "Ne0", "N0E-1", "N.000"} {
+			for _, n := range []int{0, 3} {
+				idx, mine := sp.Next()
+				if !mine {
+					continue
+				}
+				var obs, sig, msg string
+				func() {
+					defer func() {
+						if r := recover(); r != nil && sig == "" {
+							sig, msg = "c01 backlog panic-or-leak", fmt.Sprintf("%v [%s %s n=%d]", r, side, spelling, n)
+						}
+					}()
+					synctest.Test(t, func(t *testing.T) { obs, sig, msg = c01BacklogCaseX(side, n, "notifications", spelling) })
+				}()
+				if sig != "" {
+					sp.Violate(idx, sig+" id-spelling", msg, n+3)
+					continue
+				}
+				sp.Record(idx, obs, n+3, func() string { return fmt.Sprintf("%s id spelled %s n=%d", side, spelling, n) })
 			}
 		}
 	}
